@@ -10,6 +10,10 @@
    sets of exactly 131070 / 131072 ... bytes) and prints the SPEC's encoding as bytes.  The harness feeds
    them to glyf.Decode, Glyphs.Encode, glyf.Decode, SimpleGlyph.Decode, Components, FixComponents and
    records one event per call.
+   TLC also enumerates CALL HISTORIES (Decode, then every sequence of Fix / Put / Components / Encode /
+   Decode on sets with composite glyphs, incl. Fix;Fix on one glyph with two maps, Fix;Components,
+   Fix;Encode); the harness replays them and re-observes after every call the whole glyph set, all
+   Components() lists and all earlier FixComponents results (GlyfTrace: nothing the caller holds changes).
 3. V: glyph sets built through the library API (up to > 128 KiB, thorough: 65535 glyphs) go through
    Glyphs.Encode -> glyf.Decode -> per-glyph calls, recorded the same way.
 Every recorded event is judged by TLC against GlyfTrace.tla, which decodes the logged bytes with the
@@ -28,9 +32,11 @@ LEVEL = "model_checking"
 MANIFEST = {
     "text": "TLC exhaustively checks Glyf.tla/GlyfOps.tla (glyf/loca format functions written from the OpenType "
             "specification: loca layout at the real 64K/128K boundaries, flag expansion, coordinate decoding, "
-            "component records; Decode(Encode(shape)) = shape, round trip for every writer choice). TLC then "
+            "component records; Decode(Encode(shape)) = shape, round trip for every writer choice, FixComponents leaves "
+            "its source and all earlier results unchanged). TLC then "
             "enumerates glyph-set shapes and prints the spec's encoding as bytes; the harness drives glyf.Decode, "
-            "Glyphs.Encode, SimpleGlyph.Decode, Components and FixComponents on them (and on glyph sets built "
+            "Glyphs.Encode, SimpleGlyph.Decode, Components and FixComponents on them, replays TLC-generated call "
+            "histories re-observing all held glyphs after every call (and runs glyph sets built "
             "through the library API, including > 128 KiB), and every recorded call is validated by TLC against "
             "GlyfTrace.tla, which re-decodes the logged bytes with the spec's decoder.",
     "note": "Trusted: TLC, the JSON projection of glyph values in the harness. Coordinates that leave the int16 "
@@ -45,16 +51,19 @@ _BAD = re.compile(r'^<<"BAD", (\d+), "([^"]*)", "([^"]*)"(?:, (-?\d+))?>>')
 _STATS = re.compile(r'^<<"STATS", (\d+), (\d+), (\d+)>>')
 
 CALLS = {"decode": "glyf.Decode", "encode": "Glyphs.Encode", "simple": "SimpleGlyph.Decode",
-         "comps": "Glyph.Components", "fix": "Glyph.FixComponents"}
+         "comps": "Glyph.Components", "fix": "Glyph.FixComponents",
+         "observe": "state after a call history", "recheck": "source glyph after Glyph.FixComponents"}
 
 
-def _cfg(kind, salt, runs=0, comps=0, glyphs=0, steps=0, full=True, with256=False, targets=(), invs=None):
+def _cfg(kind, salt, runs=0, comps=0, glyphs=0, steps=0, full=True, with256=False, targets=(), invs=None,
+         view=False):
     invs = invs or ["EncodeDecode", "PointsMeaning", "LocaInv", "Emit"]
     return ("CONSTANTS\n  Kind = \"%s\"\n  Salt = %d\n  MaxRuns = %d\n  MaxComps = %d\n  MaxGlyphs = %d\n"
-            "  MaxSteps = %d\n  FinishFull = %s\n  With256 = %s\n  Targets = {%s}\nINIT Init\nNEXT Next\n%s"
+            "  MaxSteps = %d\n  FinishFull = %s\n  With256 = %s\n  Targets = {%s}\nINIT Init\nNEXT Next\n%s%s"
             "CHECK_DEADLOCK FALSE\n" % (
                 kind, salt, runs, comps, glyphs, steps, "TRUE" if full else "FALSE",
                 "TRUE" if with256 else "FALSE", ", ".join(str(t) for t in targets),
+                "VIEW view\n" if view else "",
                 "".join("INVARIANT %s\n" % i for i in invs)))
 
 
@@ -170,7 +179,9 @@ def _replay_case(ctx, case, expect=None):
         sigs.append(sg)
         if expect is not None and sg != expect:
             continue
-        small = {k: v for k, v in e.items() if k not in ("glyphs", "glyf", "loca", "glyph")}
+        small = {k: v for k, v in e.items() if k not in ("glyphs", "glyf", "loca", "glyph", "results")}
+        if case.get("ops"):
+            small["history"] = [o["op"] + (str(o["i"]) if o["i"] else "") for o in case["ops"]]
         size = len(case.get("glyf") or [])
         what = ("%s disagrees with the glyf/loca specification (GlyfTrace clause %s, input class %s): "
                 "event %s; case %s (%s, %s)" % (
@@ -234,7 +245,7 @@ def run(ctx):
     model_invs = ["EncodeDecode", "LocaInv", "RoundTrip", "FixInv"]
     jobs = {}
     jobs["model"] = pool.submit(_model, ctx, "Glyf model: palette sets, all writer choices",
-                                _cfg("set", salt, glyphs=ctx.pick(2, 3), steps=4, invs=model_invs), w_model, 1500)
+                                _cfg("set", salt, glyphs=ctx.pick(2, 3), steps=4, invs=model_invs, view=True), w_model, 1500)
     jobs["loca"] = pool.submit(_model, ctx, "Glyf loca layout at 64K/128K boundaries",
                                _cfg("loca", salt, glyphs=ctx.pick(4, 5), invs=["LocaLayout"]), 2, 900)
     gens = [
@@ -245,6 +256,9 @@ def run(ctx):
         ("comp-3", _cfg("comp", salt, comps=3, full=False), None, None, 500),
         ("set-2", _cfg("set", salt, glyphs=2), None, None, 300),
         ("set-sim", _cfg("set", salt, glyphs=ctx.pick(4, 6)), ctx.pick(120, 1500), 12, 100),
+        # call histories: Decode, then every sequence of Fix / Put / Components / Encode / Decode
+        ("ops", _cfg("ops", salt, steps=ctx.pick(4, 5),
+                     invs=["EncodeDecode", "LocaInv", "RoundTrip", "FixInv", "EmitOps"]), None, None, 300),
         ("big", _cfg("big", salt, targets=ctx.pick((131070, 131072),
                                                   (65534, 65536, 131068, 131070, 131072, 131074, 200000))),
          None, None, 3),
@@ -268,7 +282,10 @@ def run(ctx):
     ctx.cov["exhaustive"] = True
     ctx.cov["bounds"] = {
         "model": "glyph sets of 1..%d glyphs over a 9-glyph palette x padding 0..3 x loca version, then up to 4 API "
-                 "calls (Decode / Encode pad 2|4, version 0|1 / FixComponents)" % ctx.pick(2, 3),
+                 "calls (Decode / Encode pad 2|4, version 0|1 / FixComponents / Put)" % ctx.pick(2, 3),
+        "call histories": "3 glyph sets with composite glyphs: Decode, then every sequence of %d calls out of "
+                          "Fix(i, 2 maps) / Put / Components(i) / Encode / Decode; everything re-observed after "
+                          "every call" % ctx.pick(3, 4),
         "loca": "size vectors of length <= %d over {0,2,12,65522,65534,65536,131058,131070,131072}" % ctx.pick(4, 5),
         "simple glyphs": "all 32 flag bytes x {1,1r,2,2r,3r,256r} runs, 1 run exhaustive with every finish choice"
                          + ("" if quick else ", 2 runs exhaustive (one finish per shape)")
@@ -282,7 +299,7 @@ def run(ctx):
     per_gen = collections.Counter()
     for name, *_ in gens:
         for c in results["gen:" + name].cases:
-            key = json.dumps([c["fmt"], c["loca"], c["glyf"]], separators=(",", ":"))
+            key = json.dumps([c["fmt"], c["loca"], c["glyf"], c.get("ops")], separators=(",", ":"))
             if key in seen:
                 continue
             seen.add(key)
@@ -292,8 +309,9 @@ def run(ctx):
             cases.append(c)
             per_gen[name] += 1
     ctx.log("TLC-generated encodings: %d distinct (%s)" % (len(cases), dict(per_gen)))
-    for c in cases[:2] + [x for x in cases if x["gen"] == "comp-2"][:1] + [x for x in cases if x["gen"] == "set-2"][5:6]:
-        ctx.sample({"tlc_case": {k: c[k] for k in ("fmt", "loca", "glyf", "info", "gen")}})
+    for c in (cases[:1] + [x for x in cases if x["gen"] == "comp-2"][:1] + [x for x in cases if x["gen"] == "set-2"][5:6]
+              + [x for x in cases if x["gen"] == "ops" and [o["op"] for o in x["ops"]][1:3] == ["fix", "fix"]][:1]):
+        ctx.sample({"tlc_case": {k: c[k] for k in ("fmt", "loca", "glyf", "info", "gen", "ops") if k in c}})
     sizes = sorted(set(len(c["glyf"]) for c in cases if c["gen"] == "big"))
     ctx.cov["bounds"]["glyf table sizes of the 'big' cases"] = sizes
     libs = _lib_cases(ctx)
@@ -302,7 +320,7 @@ def run(ctx):
     #      cases share the chunks: every case names its source)
     def weight(c):
         if c["src"] == "tlc":
-            return 400 + len(c["glyf"]) * 6
+            return 400 + len(c["glyf"]) * 6 * (1 + len(c.get("ops") or []))
         n = c["lib"]["n"] // (c["lib"]["nilevery"] or 1)
         return 20000 + n * 1200 + c["lib"]["target"] * 12
     par = max(2, min(8, ctx.workers))
